@@ -83,6 +83,13 @@ CLI = [
     ('locations=(a,b,c)', ['--lat=35', '--long=-80', '--locations', '(a,b,c)'], True),
     ('locations=(a,1,c)', ['--lat=35', '--long=-80', '--locations', '(a,1,c)'], True),
     ('locations=ok+(b)', ['--lat=35', '--long=-80', '--locations', '(a,1,2)', '(b)'], True),
+    ('locations=(', ['--lat=35', '--long=-80', '--locations', '('], True),
+    ('locations=)', ['--lat=35', '--long=-80', '--locations', ')'], True),
+    ('locations=((', ['--lat=35', '--long=-80', '--locations', '(('], True),
+    ('locations=fullwidth-paren', ['--lat=35', '--long=-80', '--locations', '(a,1,2\uff09'], True),
+    ('locations=utf8-name-only', ['--lat=35', '--long=-80', '--locations', '\u00e9'], True),
+    ('locations=(utf8,1', ['--lat=35', '--long=-80', '--locations', '(\u00e9,1'], True),
+    ('locations=utf8-ok', ['--lat=35', '--long=-80', '--locations', '(\u00e9t\u00e9,1,2)'], False),
     ('unknown-flag', ['--lat=35', '--long=-80', '--bogus'], True),
     ('touchscreen=1', ['--lat=35', '--long=-80', '--touchscreen=1'], True),
 ]
